@@ -15,6 +15,8 @@ import (
 
 func init() {
 	register(&PropertyCheck{ID: "C01", Level: "other", Run: checkC01, Canaries: []Canary{
+		{Name: "reason-codes-moved-by-bulk-copy", Silent: true, Edits: []Edit{{"suback.go", "func (p *SubAck) payload(b []byte, i int) int {\n\tn := i\n\tfor j, _ := range p.reasonCodes {\n\t\ti += wuint8(p.reasonCodes[j]).fill(b, i)\n\t}\n\treturn i - n\n}\n\nfunc (p *SubAck) UnmarshalBinary(data []byte) error {\n\tb := &buffer{data: data}\n\tb.get(&p.packetID)\n\tb.getAny(p.propertyMap(), p.appendUserProperty)\n\n\tp.reasonCodes = make([]uint8, len(data)-b.i)\n\n\tfor i, _ := range p.reasonCodes {\n\t\tvar v wuint8\n\t\tb.get(&v)\n\t\tp.reasonCodes[i] = uint8(v)\n\t}\n\treturn b.err", "// payload writes the reason codes, one byte each.\nfunc (p *SubAck) payload(b []byte, i int) int {\n\tn := len(p.reasonCodes)\n\tif len(b) >= i+n {\n\t\tcopy(b[i:], p.reasonCodes)\n\t}\n\treturn n\n}\n\nfunc (p *SubAck) UnmarshalBinary(data []byte) error {\n\tb := &buffer{data: data}\n\tb.get(&p.packetID)\n\tb.getAny(p.propertyMap(), p.appendUserProperty)\n\n\t// the rest of the data is the list of reason codes, one byte each\n\trest := data[b.i:]\n\tp.reasonCodes = make([]uint8, len(rest))\n\tif b.err != nil {\n\t\treturn b.err\n\t}\n\tb.i += copy(p.reasonCodes, rest)\n\treturn nil"}, {"unsuback.go", "func (p *UnsubAck) payload(b []byte, i int) int {\n\tn := i\n\tfor j, _ := range p.reasonCodes {\n\t\ti += wuint8(p.reasonCodes[j]).fill(b, i)\n\t}\n\treturn i - n\n}\n\nfunc (p *UnsubAck) UnmarshalBinary(data []byte) error {\n\tb := &buffer{data: data}\n\tb.get(&p.packetID)\n\tb.getAny(p.propertyMap(), p.appendUserProperty)\n\n\tp.reasonCodes = make([]uint8, len(data)-b.i)\n\n\tfor i, _ := range p.reasonCodes {\n\t\tvar v wuint8\n\t\tb.get(&v)\n\t\tp.reasonCodes[i] = uint8(v)\n\t}\n\treturn b.err", "// payload writes the reason codes, one byte each.\nfunc (p *UnsubAck) payload(b []byte, i int) int {\n\tn := len(p.reasonCodes)\n\tif len(b) >= i+n {\n\t\tcopy(b[i:], p.reasonCodes)\n\t}\n\treturn n\n}\n\nfunc (p *UnsubAck) UnmarshalBinary(data []byte) error {\n\tb := &buffer{data: data}\n\tb.get(&p.packetID)\n\tb.getAny(p.propertyMap(), p.appendUserProperty)\n\n\t// the rest of the data is the list of reason codes, one byte each\n\trest := data[b.i:]\n\tp.reasonCodes = make([]uint8, len(rest))\n\tif b.err != nil {\n\t\treturn b.err\n\t}\n\tb.i += copy(p.reasonCodes, rest)\n\treturn nil"}}},
+		{Name: "bulk-copy-decodes-the-list-from-the-wrong-offset", Rule: "R1.1", Where: "SubAck", Edits: []Edit{{"suback.go", "func (p *SubAck) payload(b []byte, i int) int {\n\tn := i\n\tfor j, _ := range p.reasonCodes {\n\t\ti += wuint8(p.reasonCodes[j]).fill(b, i)\n\t}\n\treturn i - n\n}\n\nfunc (p *SubAck) UnmarshalBinary(data []byte) error {\n\tb := &buffer{data: data}\n\tb.get(&p.packetID)\n\tb.getAny(p.propertyMap(), p.appendUserProperty)\n\n\tp.reasonCodes = make([]uint8, len(data)-b.i)\n\n\tfor i, _ := range p.reasonCodes {\n\t\tvar v wuint8\n\t\tb.get(&v)\n\t\tp.reasonCodes[i] = uint8(v)\n\t}\n\treturn b.err", "// payload writes the reason codes, one byte each.\nfunc (p *SubAck) payload(b []byte, i int) int {\n\tn := len(p.reasonCodes)\n\tif len(b) >= i+n {\n\t\tcopy(b[i:], p.reasonCodes)\n\t}\n\treturn n\n}\n\nfunc (p *SubAck) UnmarshalBinary(data []byte) error {\n\tb := &buffer{data: data}\n\tb.get(&p.packetID)\n\tb.getAny(p.propertyMap(), p.appendUserProperty)\n\n\t// the rest of the data is the list of reason codes, one byte each\n\trest := data[b.i-1:]\n\tp.reasonCodes = make([]uint8, len(rest))\n\tif b.err != nil {\n\t\treturn b.err\n\t}\n\tb.i += copy(p.reasonCodes, rest)\n\treturn nil"}, {"unsuback.go", "func (p *UnsubAck) payload(b []byte, i int) int {\n\tn := i\n\tfor j, _ := range p.reasonCodes {\n\t\ti += wuint8(p.reasonCodes[j]).fill(b, i)\n\t}\n\treturn i - n\n}\n\nfunc (p *UnsubAck) UnmarshalBinary(data []byte) error {\n\tb := &buffer{data: data}\n\tb.get(&p.packetID)\n\tb.getAny(p.propertyMap(), p.appendUserProperty)\n\n\tp.reasonCodes = make([]uint8, len(data)-b.i)\n\n\tfor i, _ := range p.reasonCodes {\n\t\tvar v wuint8\n\t\tb.get(&v)\n\t\tp.reasonCodes[i] = uint8(v)\n\t}\n\treturn b.err", "// payload writes the reason codes, one byte each.\nfunc (p *UnsubAck) payload(b []byte, i int) int {\n\tn := len(p.reasonCodes)\n\tif len(b) >= i+n {\n\t\tcopy(b[i:], p.reasonCodes)\n\t}\n\treturn n\n}\n\nfunc (p *UnsubAck) UnmarshalBinary(data []byte) error {\n\tb := &buffer{data: data}\n\tb.get(&p.packetID)\n\tb.getAny(p.propertyMap(), p.appendUserProperty)\n\n\t// the rest of the data is the list of reason codes, one byte each\n\trest := data[b.i:]\n\tp.reasonCodes = make([]uint8, len(rest))\n\tif b.err != nil {\n\t\treturn b.err\n\t}\n\tb.i += copy(p.reasonCodes, rest)\n\treturn nil"}}},
 		{Name: "options-byte-written-only-when-non-zero", Rule: "R1.1", Where: "Subscribe", Edits: []Edit{{"topicfilter.go", "\ti += c.options.fill(b, i)", "\ti += c.options.fillOpt(b, i) // subscription options"}}},
 		{Name: "user-property-value-before-key-on-both-sides", Rule: "R1.4", Where: "UserProp", Edits: []Edit{
 			{"wiretypes.go", "\ti += wstring(v[0]).fill(data, i)\n\t_ = wstring(v[1]).fill(data, i)", "\ti += wstring(v[1]).fill(data, i)\n\t_ = wstring(v[0]).fill(data, i)"},
@@ -297,6 +299,27 @@ func checkC01(p *Prog, c *Check) {
 	p.checkCodecPairing(c)
 	c.Rule("R1.6", "adders: every exported Add* method, evaluated on its own with abstract elements and — for integers — every boundary value of the domain, appends what it is given, in order, to what the matching accessor or exported list field returned before; a second call keeps the first call's elements (the round trip cannot see a value that is dropped before it is ever stored)")
 	checkAdders(p, c)
+	// R1.7: the property writes with WriteTo: what reaches the writer is the encoder's output examined above — one
+	// buffer of the frame's size, filled by that encoder, handed over whole (shape rule of C10 R10.1, shared)
+	c.Rule("R1.7", "every packet type's WriteTo hands the writer exactly what the type's encoder produces: one buffer sized by the encoder's dry run (or a size method that agrees with it on every abstract state), filled by it from offset 0, written once (C10 R10.1, shared)")
+	for _, tn := range packetTypeNames() {
+		wt := p.Method(tn, "WriteTo")
+		fill := p.Method(tn, "fill")
+		cons := "(*" + tn + ").WriteTo"
+		if wt == nil || fill == nil {
+			c.Bad("R1.7", cons, "-", "WriteTo or the encoder is missing")
+			continue
+		}
+		sc := NewCheck(c.ID, p)
+		used, _ := checkWriteTo(p, sc, wt)
+		if bad := sc.Failing(); len(bad) > 0 {
+			c.Bad("R1.7", cons, p.Pos(wt.Pos()), "WriteTo does not hand the writer exactly what the encoder produces: "+bad[0].Detail)
+		} else if used != fill {
+			c.Bad("R1.7", cons, p.Pos(wt.Pos()), "WriteTo does not use the type's encoder")
+		} else {
+			c.OK("R1.7", cons, p.Pos(wt.Pos()), "one Write of the buffer filled by "+qname(fill))
+		}
+	}
 	p.widthAgreement(c, "R1.4")
 	c.Measured["abstract_states"] = nstates
 	c.Floor("packet types co-simulated", len(names), 15, "15 MQTT packet types")
